@@ -149,7 +149,7 @@ pub fn gen_c05(out: &mut impl Write, seed: u64, thorough: bool) {
             writeln!(out, "o.pw.rt {} {} {} {} default", be.name(), k.name(), hex(b"pw"), hex(&key)).unwrap();
         }
         // PKE: many seals, so that RSA-KEM ciphertexts / ephemeral values with leading zero bytes occur
-        let n = if be == Be::V1 { if thorough { 30000 } else { 3000 } } else if thorough { 2000 } else { 150 };
+        let n = if be == Be::V1 { if thorough { 30000 } else { 3000 } } else if thorough { 20000 } else { 2500 };
         for _ in 0..n {
             writeln!(out, "o.seal.rt {} {} {} {}", be.name(), hex(&psk), hex(&ppk), hex(&r.bytes(32))).unwrap();
         }
@@ -529,7 +529,7 @@ pub fn gen_c07(out: &mut impl Write, seed: u64, thorough: bool) {
                 }
             }
         }
-        if be != Be::V1 && (be == Be::V2 || be == Be::V3 || be == Be::V4) {
+        if be != Be::V1 {
             let key = r.bytes(32);
             let budget = if thorough { 40_000 } else { 6_000 };
             let mut seen = std::collections::HashSet::new();
@@ -541,6 +541,11 @@ pub fn gen_c07(out: &mut impl Write, seed: u64, thorough: bool) {
                     classes.push((0, blob[48]));                       // point tag 02 / 03
                     if blob[49] == 0 || blob[49] == 0xff { classes.push((1, blob[49])); }
                     classes.push((2, blob[96] >> 5));                  // low byte of x, coarse
+                    // the ECDH shared secret (x-coordinate of esk·PK = sk·EPK): a leading zero byte must be kept (fixed width)
+                    if let Some(z) = p384_shared_x(&psk, &blob[48..97]) {
+                        if z[0] == 0 || z[0] == 0xff { classes.push((5, z[0])); }
+                        if z[47] == 0 { classes.push((6, 0)); }
+                    }
                 } else {
                     classes.push((0, blob[63]));                       // top byte of the X25519 u-coordinate
                     if blob[32] == 0 || blob[32] == 0xff { classes.push((1, blob[32])); }
@@ -594,6 +599,14 @@ pub fn rsa_spki_with_bits_e(r: &mut Rng, bits: usize, e: &[u8]) -> Vec<u8> {
     let mut bitstr = vec![0u8];
     bitstr.extend(key);
     der_tlv(0x30, &[alg.to_vec(), der_tlv(3, &bitstr)].concat())
+}
+
+/// x-coordinate of the ECDH shared point for a P-384 secret scalar (48 bytes) and a SEC1-encoded public point
+pub fn p384_shared_x(sk: &[u8], pk: &[u8]) -> Option<Vec<u8>> {
+    let sk = p384::SecretKey::from_slice(sk).ok()?;
+    let pk = p384::PublicKey::from_sec1_bytes(pk).ok()?;
+    let z = p384::ecdh::diffie_hellman(sk.to_nonzero_scalar(), pk.as_affine());
+    Some(z.raw_secret_bytes().to_vec())
 }
 
 pub fn p384_uncompressed(c: &[u8]) -> Option<Vec<u8>> {
@@ -1152,6 +1165,11 @@ pub fn gen_c19smoke(out: &mut impl Write, seed: u64, thorough: bool) {
                 let mut bad = raw.to_vec();
                 bad.push(0);
                 writeln!(out, "kdec {b} {kn} {}", hex(&bad)).unwrap();
+                // every key offered to the decoder of every *other* kind too (a reduced build must reject / accept exactly what
+                // the full build does, e.g. a key-sealing key offered as a token key)
+                for other in ["local", "secret", "public", "pkesecret", "pkepublic"] {
+                    if other != kn { writeln!(out, "kdec {b} {other} {}", hex(raw)).unwrap(); }
+                }
                 let text = with_v!(be, V => match kn {
                     "local" => paseto_core::paserk::KeyText::<V, Local>::from_raw_bytes(raw).to_string(),
                     "secret" | "pkesecret" => paseto_core::paserk::KeyText::<V, Secret>::from_raw_bytes(raw).to_string(),
